@@ -37,6 +37,7 @@ class D:
     def __neg__(s): return D(-s.v, -s.t)
     def __mul__(s, o):
         if isinstance(o, (Vec, Mat)): return o * s
+        if hasattr(o, 'g') and hasattr(o, 'p'): return NotImplemented
         o = D.lift(o); return D(s.v * o.v, s.t * o.v + s.v * o.t)
     __rmul__ = __mul__
     def __truediv__(s, o): o = D.lift(o); return D(s.v / o.v, (s.t * o.v - s.v * o.t) / (o.v * o.v))
@@ -187,7 +188,9 @@ class Exec:
             if n.get('castKind') == 'LValueToRValue': v = rval(v)
             return v
         if k == 'ConstantExpr':
-            if 'value' in n: return int(n['value'])
+            if 'value' in n:
+                v = n['value']
+                return (v == 'true') if v in ('true', 'false') else int(v)
             return s.expr(n['inner'][0])
         if k == 'CXXConstructExpr':
             if 'inner' not in n: return None
